@@ -28,6 +28,7 @@ MON = {
             "FirstSendAfterAllInit", "HandOverAfterOwnSend"],
     "C05": ["KeyAgreement", "AllSubsetsVerify", "RevealOnlyAfterAllCommits", "CommitmentBinding", "EveryCallReturns", "NoCrash", "NoPanicInUse"],
     "C11": ["EveryCallReturns", "NoCrash"],
+    "C13": ["KeyAgreement", "AllSubsetsVerify", "HonestRunCompletes", "NoCrash", "NoPanicInUse"],
 }
 
 STRATEGIES = ["honest", "offpoly-share", "withhold-share", "malformed-share", "wrong-tag", "empty-payload", "duplicate-share", "offpoly-reveal",
